@@ -91,7 +91,7 @@ var propsMeta = map[string]PropMeta{
 		Real: append([]string{"unbounded.Channel", "stats.GetGroups", "diskwriter client lifecycle", "webserver WHIP handlers"}, confReal...), Stub: confStub,
 	},
 	"C14": {
-		Rule: "membership scenario: joins, leaves, kicks, reconnects under the same id, permission and status changes by 2-6 clients in one or two groups; oracle: every client's view built from the 'user' add/change/delete events it received equals the server-side truth at every quiescent point, events for one user arrive in order, and no event of another group or from before a re-join leaks. Non-trivial: more than one view checked after at least one context switch." + schedRule,
+		Rule: "membership scenario: joins, leaves, kicks, reconnects under the same id, permission and status changes by 2-6 clients in one or two groups; oracle: every client's view built from the 'user' add/change/delete events it received equals the server-side truth at every quiescent point, events for one user arrive in order, and no event of another group or from before a re-join leaks; a group's description file may be unreadable for a while (joins and updates look at it meanwhile) and a client that was told it had joined, and has not left, must be listed by the group of that name; several clients share one entry with an explicit permission list. whip-expiry scenario: WHIP sessions are created and deleted next to group.Update() on a group whose history age has elapsed; once every session has been deleted no WHIP client is a member of any group. Non-trivial: more than one view checked after at least one context switch (membership); a session created and deleted (whip-expiry)." + schedRule,
 		Real: confReal, Stub: confStub,
 	},
 	"C15": {
@@ -115,7 +115,7 @@ var propsMeta = map[string]PropMeta{
 		Real: []string{"group name parsing and file lookup, webserver path handling (API, recordings, static), diskwriter file naming"}, Stub: []string{"disk: simrt.VFS for group and token files, a per-run temporary directory for recordings and static files"},
 	},
 	"C20": {
-		Rule: "record scenario: an audio and/or VP8/VP9/H264 stream with frames of arbitrary sizes (1 byte to hundreds of packets), random start sequence numbers and timestamps (incl. 16- and 32-bit wrap) reaches the real recorder through the real up track, packet cache and writer loop with reordering, duplicates, gaps the cache can or cannot fill, sender reports at arbitrary points, late join (replay from the cached key frame), resolution changes, and stops (unrecord, publisher leaving, PushConn(nil), abrupt) at arbitrary points; oracle: every file parsed back with an independent EBML reader and compared with the frames sent: identity, no duplicates, order, monotonic timestamps, completeness after the first key frame when every packet arrived or was recoverable, declared tracks, shared time origin, closure. Non-trivial: blocks were written and faults, cache recovery, several recordings or sender reports were involved." + schedRule,
+		Rule: "record-pause scenario (1 run in 801): the same with a publisher that is silent for 6.6 to 12.5 hours in mid-stream, so that the timestamps move 2^31 ticks away from the origin of the file; no sender reports there. record scenario: an audio and/or VP8/VP9/H264 stream with frames of arbitrary sizes (1 byte to hundreds of packets), random start sequence numbers and timestamps (incl. 16- and 32-bit wrap) reaches the real recorder through the real up track, packet cache and writer loop with reordering, duplicates, gaps the cache can or cannot fill, sender reports at arbitrary points, late join (replay from the cached key frame), copies of packets that arrive beyond the reorder window, a recorder that stalls (writer queue overflow, recovery from the cache), outages of more than 512 packets, resolution changes, and stops (unrecord, publisher leaving, PushConn(nil), abrupt) at arbitrary points; oracle: every file parsed back with an independent EBML reader and compared with the frames sent: identity, no duplicates, order, monotonic timestamps, completeness after the first key frame when every packet arrived or was recoverable, declared tracks, shared time origin, closure. Non-trivial: blocks were written and faults, cache recovery, several recordings or sender reports were involved." + schedRule,
 		Real: []string{"diskwriter (Client, diskConn, diskTrack, Write, fetch, writeBuffered, origin computation, initWriter, close)", "rtpconn up track / readLoop / rtpWriterLoop / sendSequence, packetcache", "jech/samplebuilder, at-wat/ebml-go webm writer, pion rtp depacketisers (the pinned dependencies, uninstrumented)"}, Stub: []string{"disk for recordings: a real per-run temporary directory (no fault injection on it)", "publisher: generated RTP streams with synthetic codec payloads (valid headers, random bodies)"},
 	},
 }
